@@ -10,6 +10,9 @@ from ..core import same, HarnessError, snap, snap_same
 ID = 'C19'
 TITLE = 'container lifting leaf-wise, shape preserving; waiter schedule independent'
 LEVEL = 'exploration'
+TECHNIQUE = 'runtime monitoring: lift(shape, companions) reference model with a recording leaf function; helper functions vs map of their own leaf behaviour; waiter driven through every completion order on a deterministic event loop'
+LEVEL_TEXT = 'Held on the nestings/companions explored; waiter: all k! completion orders of each generated structure (k<=6 in thorough), completion sequence observed is logged. A check says held on K observed executions, never verified.'
+LEVEL_NOTE = "Trusted: asyncio's event loop ordering for the driver; companions are generated to be unambiguous."
 RULE = ('random nestings of list/tuple/dict/Dict/dictattr to depth 4 with scalar leaves; companions that are unambiguous (scalar/str/None, same-shape, top-level-only same length/keys, '
         'or a list/dict whose length/keys match no level) passed positionally, by keyword and mixed; library helpers on nested mixed leaves; zipper/lens over scalars and sequences of '
         'lengths 0..4; waiter over structures with k<=6 awaitables (Futures, coroutines, Tasks) under ALL k! completion orders; non-trivial = depth>=2 with >=1 positional companion, '
